@@ -10,7 +10,7 @@ T = "offset::local::tz_info::timezone::TimeZone::"
 def run(chk, tier):
     P = Prog("default")
     chk.configs.add("default")
-    for r in (r_thread_local, r_reload_table, r_threshold, r_fallbacks, r_dispatch, r_find_file):
+    for r in (r_thread_local, r_reload_table, r_threshold, r_fallbacks, r_dispatch, r_find_file, r_refresh_first):
         chk.guarded(r, P, tier)
     chk.assume("timing, file-system state, the actual zone selected for an environment and cross-thread histories are NOT decided: the property quantifies over histories and "
                "schedules; only the structure of the reload decision and of the selection order is")
@@ -155,6 +155,19 @@ def r_dispatch(chk, P, tier):
         if first:
             break
     chk.expect(first == "is_empty", "empty first", "the first test of from_posix_tz is %s, expected is_empty()" % first)
+    # the ':' prefix is stripped: where the colon test holds, find_tz_file gets a tail of the string, not the string itself
+    n = 0
+    for p in Sym(P, fn).paths():
+        colon = [c for c in p.conds if c[2] != 0 and ("('char', 58)" in repr(c[1]) or "':'" in repr(c[1]))]
+        if not colon:
+            continue
+        for c in p.calls:
+            if isinstance(c[1], str) and c[1].endswith("find_tz_file"):
+                n += 1
+                a = c[2][0]
+                whole = a == ("arg", 1) or unref(a) == ("arg", 1)
+                chk.expect(not whole, "colon branch #%d" % n, "with a leading ':' from_posix_tz hands the whole string (colon included) to find_tz_file", loc=P.loc(fn))
+    chk.expect(n >= 1, "colon branch found", "no path of from_posix_tz tests for ':' and then calls find_tz_file (anchor lost)")
     loc = [p.ret for p in Sym(P, T + "local").paths() if p.end[0] == "return"]
     ok = any(any(is_call(x, name=fn) for x in walk_terms(r)) for r in loc) and any(any(is_call(x, name=fn) and const_of(unref(x[2][0])) == "localtime" for x in walk_terms(r)) for r in loc)
     chk.expect(ok, "TimeZone::local", "TimeZone::local(None) does not fall back to from_posix_tz(\"localtime\")")
@@ -184,3 +197,16 @@ def r_find_file(chk, P, tier):
     dirs = [n for n in P.fns if n.endswith("ZONE_INFO_DIRECTORIES") and "value" in P.fns[n]]
     v = P.fns[dirs[0]]["value"] if dirs else []
     chk.expect(bool(v) and all(isinstance(x, str) and x.startswith("/") for x in v), "directories", "ZONE_INFO_DIRECTORIES = %s" % v)
+
+
+def r_refresh_first(chk, P, tier):
+    """both kinds of conversion notice a change: in Cache::offset the staleness test (now.duration_since(self.last_checked)) dominates every zone lookup"""
+    chk.rule("DOM.refresh_first", "in Cache::offset every find_local_time_type* call is dominated by the staleness test on last_checked", floor=2)
+    fn = "offset::local::inner::Cache::offset"
+    cfg = P.cfg(fn)
+    test = [bi for bi, t, cs in P.calls(fn) if any(c.endswith("SystemTime::duration_since") for c in cs)]
+    looks = [(bi, [c for c in cs if "find_local_time_type" in c][0]) for bi, t, cs in P.calls(fn) if any("find_local_time_type" in c for c in cs)]
+    if len(test) != 1 or len(looks) < 2:
+        raise AnchorLost("Cache::offset: %d staleness tests, %d lookups" % (len(test), len(looks)))
+    for bi, c in looks:
+        chk.expect(cfg.dominates(test[0], bi), c.split("::")[-1], "Cache::offset reaches %s without having tested whether the cached zone is stale" % c.split("::")[-1], loc=P.loc(fn))
